@@ -21,12 +21,13 @@ import (
 	"strings"
 	"sync/atomic"
 	"time"
+	"verif/internal/report"
 )
 
 // a frame belongs to the repository iff its source file is under repoDir
 // (closures of third-party combinators inlined into repository functions
 // carry repository function names but third-party file names)
-const repoDir = "/repo/"
+var repoDir = report.RepoDir() + "/"
 
 const (
 	allocBase    = 64 << 20
